@@ -14,7 +14,8 @@ From Verif Require Import Sexp UnitAlg Expr Loader LoaderP C17P.
 Import ListNotations.
 
 (* never hangs: the progress counter of the connection work-list and the length of the mapping chain bound
-   every loop, so the fuel `load` computes for itself is always sufficient *)
+   every loop, and the walk up the encapsulation hierarchy meets a new component at every step; so the fuel `load`
+   computes for itself is always sufficient *)
 Theorem C17_total : forall d, load d <> OutOfFuel.
 Proof. exact load_total. Qed.
 Print Assumptions C17_total.
@@ -63,6 +64,15 @@ Theorem C17_missing_variable : forall d,
   exists e, load d = Error e.
 Proof. exact reject_missing_variable. Qed.
 Print Assumptions C17_missing_variable.
+
+(* the groups make some component its own ancestor (A{A}; A{B} + B{A}; A{B}, B{C}, C{A}; ...): chain j p is the
+   j-th ancestor reached from p in the hierarchy read from the groups (fix: commit 3781b42) *)
+Theorem C17_cyclic_encapsulation : forall d,
+  (exists ps c j, read_groups (st_names d) (d_groups d) = OK ps /\ In c (st_names d) /\
+                  chain (st_names d) ps j (parent_of (st_names d) ps c) = Some c) ->
+  exists e, load d = Error e.
+Proof. exact reject_cyclic_encapsulation. Qed.
+Print Assumptions C17_cyclic_encapsulation.
 
 (* both connected variables are sources (neither has an `in` interface) *)
 Theorem C17_both_sources : forall d, both_sources d -> exists e, load d = Error e.
